@@ -259,6 +259,9 @@ def finish(prop, mod, tier, seed, specs, outs, wall, replay=None) -> int:
             else:
                 violations.append(v)
 
+    if hasattr(mod, "post_verdict") and not replay:
+        for v in mod.post_verdict(dict(counters), tier):
+            violations.append({"mech": v["mech"], "finding": v.get("finding"), "case": v.get("case", {}), "detail": v["detail"], "n": 1})
     known = findings.load_open(prop)
     new, listed = [], []
     for v in violations:
